@@ -108,6 +108,11 @@ def run(ctx):
         from ._vid import check_all_nodes_are_vertices
 
         check_all_nodes_are_vertices(ctx, res)
+    with res.guard("K-VID label-free ids of the bipartite projection"):
+        from ._vid import check_label_free_ids
+
+        res.rules.setdefault("K-VID", "vertex ids of the projections are counters behind a kind prefix, tied to the objects only through the id tables")
+        check_label_free_ids(ctx, res)
     with res.guard("G-STALE (shared with C10)"):
         from ..lints import check_stale_in_loop
 
